@@ -107,6 +107,18 @@ for _n in range(1, 5):
 _POST_CASES += [_shape_case(sh, "thorough") for sh in _shapes(5)]
 _six = _shapes(6)
 _POST_CASES += [_shape_case(sh, "thorough") for sh in _six[7::16]]
+# two hard links whose targets are both numbered after them (both are moved by
+# reorder_hard_links, the second move sees the numbering the first one left):
+# the smallest shapes on which a stale index in that loop shows (seed C03-6);
+# every third of the 422 such 6-node shapes in the quick tier, all in thorough
+_six2 = [sh for sh in _six if sh[1].count('L') == 2 and
+         all(sh[2][i] > i for i in range(6) if sh[1][i] == 'L')]
+_seen = set(c["id"] for c in _POST_CASES)
+for _i, _sh in enumerate(_six2):
+    _c = _shape_case(_sh, "quick" if _i % 3 == 0 else "thorough")
+    if _c["id"] not in _seen:
+        _POST_CASES.append(_c)
+        _seen.add(_c["id"])
 # the probe shape of DESIGN 2.4, a deep chain and a fifo in place of a file
 _POST_CASES += [
     _shape_case(((0, 0, 0, 1, 1, 1), "DDFFFL", (0, 0, 0, 0, 0, 2)), "quick"),
